@@ -57,35 +57,46 @@ func ParseFile(f FileInput, opts ...Option) (prog *Prog, _ error) {
 
 		for {
 			n, err := f.Read(b[:])
+			verifEv("R", "read", n, verifErrClass(err), inpc)
 			if err != nil && err != io.EOF {
 				rerr <- err
+				verifEv("R", "rerr", 1, 0, inpc)
 				break
 			}
 			if err == io.EOF && n == 0 {
 				rerr <- nil
+				verifEv("R", "rerr", 0, 0, inpc)
 				break
 			}
 			select {
 			case inpc <- string(b[:n]):
+				verifEv("R", "sent", n, 0, inpc)
 				continue
 			case <-done:
+				verifEv("R", "sawdone", 0, 0, inpc)
 				rerr <- nil
+				verifEv("R", "rerr", 0, 0, inpc)
 				return
 			}
 		}
 		close(inpc)
+		verifEv("R", "closeinpc", 0, 0, inpc)
 	}()
 
 	go func() {
 		p, err := parseWithOpts(inpc, f.Name(), opts)
+		verifEv("P", "parsed", verifErrClass(err), 0, inpc)
 		if err != nil {
 			close(done)
+			verifEv("P", "done", 0, 0, inpc)
 		}
 		prog = p
 		perr <- err
+		verifEv("P", "perr", verifErrClass(err), 0, inpc)
 	}()
 
 	err, err2 := <-rerr, <-perr
+	verifEv("C", "got", verifErrClass(err), verifErrClass(err2), inpc)
 	if err == nil {
 		err = err2
 	}
